@@ -1,5 +1,11 @@
 package jmespath
 
+import (
+	"encoding/json"
+
+	"github.com/woodsbury/decimal128"
+)
+
 // C02: every built-in returns the specified result for every argument.
 // Differential against refjp's function table (Appendix A of DESIGN.md).
 
@@ -201,4 +207,24 @@ func H_C02_variadic() {
 	}
 	doc := map[string]any{"a": vrtDoc("a", 1, u, uJNum|uNil), "b": vrtDoc("b", 1, u, uJNum|uStr), "c": vrtDoc("c", 1, u, uJNum|uNil)}
 	diffSearch(expr, doc, false)
+}
+
+// H_C02_tinyfrac: counts, widths and offsets that miss an integer by less
+// than binary floating point resolves (and numbers that only look integral in
+// 16 digits) are not integers: invalid-value, as for 1.5.
+var c02Tiny = []string{"3.00000000000000000001", "2.0000000000000000000000000000001", "1e-30", "0.99999999999999999999", "4.000000000000000000005e0", "1.0000000000000001", "2.99999999999999999999999", "30000000000000000000001e-22", "1.5", "3.0", "3e0", "30e-1", "0.3e1", "-0.00000000000000000001"}
+
+func H_C02_tinyfrac() {
+	exprs := []string{"pad_left(a, c)", "pad_right(a, c, b)", "split(a, b, c)", "replace(a, b, 'zz', c)", "find_first(a, b, c)", "find_first(a, b, `0`, c)", "find_last(a, b, c)", "find_last(a, b, `0`, c)"}
+	k := vrtChoose("expr", len(exprs))
+	vrtNote("template:" + exprs[k])
+	c := json.Number(c02Tiny[vrtChoose("c", len(c02Tiny))])
+	var cv any = c
+	if vrtChoose("carrier", 2) == 1 {
+		d, err := decimal128.Parse(string(c))
+		vrtAssume(err == nil)
+		cv = d
+	}
+	doc := map[string]any{"a": "abcabc", "b": "c", "c": cv}
+	diffSearch(exprs[k], doc, false)
 }
